@@ -4,7 +4,7 @@ CONSTANTS
   NpgSet = {1, 3}
   Dims = {2, 3}
   MaxRank = 2
-  Ops = {"matmul", "dot", "ddot"}
+  Ops = {"matmul", "dot", "ddot", "tensorprod"}
   Emit = TRUE
 INVARIANT TypeRule
 INVARIANT EmitOK
